@@ -82,7 +82,7 @@ PROPS["C01"] = {
 PROPS["C08"] = {
     "verus": True,
     "level_text": "Proof by contract of the transport receiver: header codec on all 256 octets, sequence arithmetic mod 64, Assembler::assemble one step from every well-formed pre-state against a spec function written from the property (FIR restarts, non-FIR ignored when idle, continuation only with next sequence number from the same source, overflow drops, FIN completes with a fresh frame id, broadcast only FIR+FIN), buffer bytes, peek/pop/reset, and the Reader's pop/peek/reset.",
-    "level_note": "Not covered: Writer::write and Reader::read (async, PhysLayer) - so neither the sender's segmentation loop nor the read-loop guard that keeps assemble from being called while a completed fragment is untaken (stated caller precondition). Running-state buffer bytes for buffer 32 and pinned lengths at 2048 (bounded in that dimension); IPv6 source addresses excluded; multi-segment composition is the inductive argument in DESIGN.",
+    "level_note": "Sender: Writer::write proved for 1- and 2-segment fragments (FIR first, FIN last, consecutive sequence numbers, 249-byte chunks, one physical write per frame). Not covered: Reader::read (async) - the read-loop guard that keeps assemble from being called while a completed fragment is untaken (stated caller precondition). Running-state buffer bytes for buffer 32 and pinned lengths at 2048 (bounded in that dimension); IPv6 source addresses excluded; multi-segment composition is the inductive argument in DESIGN.",
     "not_covered": ["transport::real::writer::Writer::write (async): chunks of 249, FIR first, FIN last, consecutive sequence numbers", "transport::real::reader::Reader::read (async): guard `assembler.peek().is_some()` is the caller precondition of assemble"],
 }
 PROPS["C04"] = {
